@@ -194,6 +194,20 @@ theorem C09_error_reported (evs : List Ev) (he : errorSeen (trace {} evs) = true
   have hf' : (catchUp s).failed = true := hf
   simp [step, poll, hfl, hw, hf']
 
+-- non-vacuity of `C09_error_reported`: a request was handed out and one half of it is still alive, the GOAWAY is
+-- in, a second `accept` has been polled and is parked (`acceptPending`); then a task records a connection error.
+-- Both hypotheses hold, the parked call has been woken by the error and its poll answers the error — not `None`
+-- (a request is alive) and not `Pending`; before the error the same call was NOT woken (so the wake is the error's)
+example : let evs := [Ev.arrive 0, .callAccept, .poll, .clone 0, .dropHandle 0, .goaway, .callAccept, .poll, .connError]
+    errorSeen (trace {} evs) = true ∧ (run {} evs).inFlight = true ∧
+    ((run {} evs).wake = true ∧ (step (run {} evs) .poll).2 = [.acceptErr]) ∧
+    (run {} evs.dropLast).wake = false ∧ (run {} evs.dropLast).inFlight = true ∧
+    (trace {} evs.dropLast).getLast?.map (·.obs) = some [.acceptPending] := by decide
+-- … and the theorem applied to that history gives the conclusion
+example : (step (run {} [Ev.arrive 0, .callAccept, .poll, .clone 0, .dropHandle 0, .goaway, .callAccept, .poll,
+    .connError]) .poll).2 = [.acceptErr] :=
+  (C09_error_reported _ (by decide) (by decide)).2
+
 /-! ### non-vacuity: concrete histories -/
 
 /-- what each step of a history shows. -/
